@@ -1,4 +1,4 @@
-// factgen_c05 re-extracts from cron/cron.go the shape of the scheduler that the model
+// factgen_c05 re-extracts from cron/cron.go (and the job wrappers of cron/chain.go) the shape of the scheduler that the model
 // lean/KitModel/CronSched.lean is written against, and writes it as
 // lean/KitModel/Generated/C05.lean:
 //
@@ -190,6 +190,12 @@ type facts struct {
 	scheduleSendsWhenRunning, removeSendsWhenRunning         bool
 	entriesAsksWhenRunning, startSpawnsRun                   bool
 	lessZeroLast                                             bool
+	// chain.go
+	skipCap, skipTokens                      int
+	skipTokenDeferred                        bool
+	delayUnlockDeferred, delayThresholdMinute bool
+	delayReadsClockBeforeLock                bool
+	recoverLogsError, thenAppliesLastFirst   bool
 }
 
 func isHook(s ast.Stmt) (name string, args []string, ok bool) {
@@ -666,6 +672,208 @@ func (f *facts) waiter(file *ast.File, fns map[string]*ast.FuncDecl) {
 	f.waitReturnsAtZero = true
 }
 
+// funcLitBody returns the body of `return FuncJob(func() { … })` (the last statement of list).
+func funcJobBody(s ast.Stmt, ctx string) *cursor {
+	rs, ok := s.(*ast.ReturnStmt)
+	if !ok || len(rs.Results) != 1 {
+		fail(s, "%s: expected `return FuncJob(func() { … })`", ctx)
+	}
+	call, ok := rs.Results[0].(*ast.CallExpr)
+	if !ok || str(call.Fun) != "FuncJob" || len(call.Args) != 1 {
+		fail(s, "%s: expected `return FuncJob(func() { … })`", ctx)
+	}
+	fl, ok := call.Args[0].(*ast.FuncLit)
+	if !ok {
+		fail(s, "%s: FuncJob argument is not a function literal", ctx)
+	}
+	return block(fl.Body, ctx+"/job")
+}
+
+// wrapperBody returns the body of `return func(j Job) Job { … }`.
+func wrapperBody(fd *ast.FuncDecl, ctx string) *cursor {
+	if len(fd.Body.List) != 1 {
+		fail(fd, "%s: expected a single `return func(j Job) Job { … }`", ctx)
+	}
+	rs, ok := fd.Body.List[0].(*ast.ReturnStmt)
+	if !ok || len(rs.Results) != 1 {
+		fail(fd, "%s: expected `return func(j Job) Job { … }`", ctx)
+	}
+	fl, ok := rs.Results[0].(*ast.FuncLit)
+	if !ok {
+		fail(fd, "%s: expected `return func(j Job) Job { … }`", ctx)
+	}
+	return block(fl.Body, ctx)
+}
+
+func (f *facts) chain(fns map[string]*ast.FuncDecl) {
+	// Then
+	c := block(fns["Chain.Then"].Body, "Chain.Then")
+	rs, ok := c.peek().(*ast.RangeStmt)
+	if !ok || str(rs.X) != "c.wrappers" || rs.Key == nil || str(rs.Key) != "i" || rs.Value != nil {
+		fail(c.peek(), "Chain.Then: expected `for i := range c.wrappers`")
+	}
+	c.i++
+	b := block(rs.Body, "Chain.Then/loop")
+	b.expect("j = c.wrappers[len(c.wrappers)-i-1](j)")
+	b.end()
+	c.expect("return j")
+	c.end()
+	f.thenAppliesLastFirst = true
+
+	// SkipIfStillRunning
+	w := wrapperBody(fns["SkipIfStillRunning"], "SkipIfStillRunning")
+	as, ok := w.peek().(*ast.AssignStmt)
+	if !ok || len(as.Lhs) != 1 || str(as.Lhs[0]) != "ch" {
+		fail(w.peek(), "SkipIfStillRunning: expected `ch := make(chan struct{}, n)`")
+	}
+	mk, ok := as.Rhs[0].(*ast.CallExpr)
+	if !ok || str(mk.Fun) != "make" || len(mk.Args) != 2 || str(mk.Args[0]) != "chan struct{}" {
+		fail(w.peek(), "SkipIfStillRunning: expected `ch := make(chan struct{}, n)`")
+	}
+	lit, ok := mk.Args[1].(*ast.BasicLit)
+	if !ok || lit.Kind != token.INT {
+		fail(w.peek(), "SkipIfStillRunning: channel capacity is not a literal")
+	}
+	f.skipCap, _ = strconv.Atoi(lit.Value)
+	w.i++
+	for w.peek() != nil {
+		if _, isSend := w.peek().(*ast.SendStmt); !isSend {
+			break
+		}
+		w.expect("ch <- struct{}{}")
+		f.skipTokens++
+	}
+	j := funcJobBody(w.peek(), "SkipIfStillRunning")
+	w.i++
+	w.end()
+	sel, ok := j.peek().(*ast.SelectStmt)
+	if !ok || len(sel.Body.List) != 2 {
+		fail(j.peek(), "SkipIfStillRunning: expected a select with a receive case and a default")
+	}
+	j.i++
+	j.end()
+	for _, cl := range sel.Body.List {
+		cc := cl.(*ast.CommClause)
+		body := &cursor{list: cc.Body, ctx: "SkipIfStillRunning/" + commText(cc)}
+		switch commText(cc) {
+		case "v := <-ch":
+			if ds, isDefer := body.peek().(*ast.DeferStmt); isDefer {
+				if text(ds) != "defer func() { ch <- v }()" {
+					fail(ds, "SkipIfStillRunning: unknown deferred statement `%s`", text(ds))
+				}
+				body.i++
+				body.expect("j.Run()")
+				body.end()
+				f.skipTokenDeferred = true
+			} else {
+				body.expect("j.Run()")
+				body.expect("ch <- v")
+				body.end()
+			}
+		case "default":
+			if !isInfoLog(body.peek(), "\"skip\"") {
+				fail(cc, "SkipIfStillRunning: default case does not log \"skip\" at Info")
+			}
+			body.i++
+			body.end()
+		default:
+			fail(cc, "SkipIfStillRunning: unknown case `%s`", commText(cc))
+		}
+	}
+
+	// DelayIfStillRunningWithClock
+	w = wrapperBody(fns["DelayIfStillRunningWithClock"], "DelayIfStillRunningWithClock")
+	w.expect("var mu sync.Mutex")
+	j = funcJobBody(w.peek(), "DelayIfStillRunningWithClock")
+	w.i++
+	w.end()
+	j.expect("start := clk.Now()")
+	f.delayReadsClockBeforeLock = true
+	j.expect("mu.Lock()")
+	deferred := false
+	if ds, isDefer := j.peek().(*ast.DeferStmt); isDefer {
+		if text(ds) != "defer mu.Unlock()" {
+			fail(ds, "Delay: unknown deferred statement `%s`", text(ds))
+		}
+		j.i++
+		deferred = true
+	}
+	is, ok := j.peek().(*ast.IfStmt)
+	if !ok || is.Init == nil || text(is.Init) != "dur := clk.Since(start)" || is.Else != nil {
+		fail(j.peek(), "Delay: expected `if dur := clk.Since(start); dur > time.Minute`")
+	}
+	switch str(is.Cond) {
+	case "dur > time.Minute":
+		f.delayThresholdMinute = true
+	case "dur > time.Hour", "dur >= time.Minute", "dur > time.Second":
+		f.delayThresholdMinute = false
+	default:
+		fail(is, "Delay: unknown threshold `%s`", str(is.Cond))
+	}
+	if len(is.Body.List) != 1 || !isInfoLog(is.Body.List[0], "\"delay\"") {
+		fail(is, "Delay: the long-wait branch does not log \"delay\" at Info")
+	}
+	j.i++
+	j.expect("j.Run()")
+	if !deferred {
+		j.expect("mu.Unlock()")
+	}
+	j.end()
+	f.delayUnlockDeferred = deferred
+	// DelayIfStillRunning = WithClock(real clock)
+	c = block(fns["DelayIfStillRunning"].Body, "DelayIfStillRunning")
+	c.expect("return DelayIfStillRunningWithClock(logger, clock.RealClock{})")
+	c.end()
+
+	// Recover
+	w = wrapperBody(fns["Recover"], "Recover")
+	j = funcJobBody(w.peek(), "Recover")
+	w.i++
+	w.end()
+	ds, ok := j.peek().(*ast.DeferStmt)
+	if !ok {
+		fail(j.peek(), "Recover: expected `defer func() { if r := recover(); r != nil { … } }()`")
+	}
+	dfl, ok := ds.Call.Fun.(*ast.FuncLit)
+	if !ok || len(dfl.Body.List) != 1 {
+		fail(ds, "Recover: deferred call is not a function literal with a single `if`")
+	}
+	ri, ok := dfl.Body.List[0].(*ast.IfStmt)
+	if !ok || ri.Init == nil || text(ri.Init) != "r := recover()" || str(ri.Cond) != "r != nil" || ri.Else != nil {
+		fail(dfl, "Recover: expected `if r := recover(); r != nil`")
+	}
+	logged, rethrown := false, false
+	ast.Inspect(ri.Body, func(n ast.Node) bool {
+		if call, ok := n.(*ast.CallExpr); ok {
+			switch str(call.Fun) {
+			case "logger.Error":
+				if len(call.Args) >= 2 && str(call.Args[1]) == "\"panic\"" {
+					logged = true
+				}
+			case "panic":
+				rethrown = true
+			}
+		}
+		return true
+	})
+	if rethrown {
+		fail(ri, "Recover: the recovered value is thrown again")
+	}
+	f.recoverLogsError = logged
+	j.i++
+	j.expect("j.Run()")
+	j.end()
+}
+
+func isInfoLog(s ast.Stmt, msg string) bool {
+	es, ok := s.(*ast.ExprStmt)
+	if !ok {
+		return false
+	}
+	call, ok := es.X.(*ast.CallExpr)
+	return ok && str(call.Fun) == "logger.Info" && len(call.Args) >= 1 && str(call.Args[0]) == msg
+}
+
 func b2(b bool) string {
 	if b {
 		return "true"
@@ -703,7 +911,30 @@ func main() {
 			fail(file, "function %s not found in cron.go", n)
 		}
 	}
+	chainSrc := filepath.Join(*repo, "cron", "chain.go")
+	chainFile, err := parser.ParseFile(fset, chainSrc, nil, 0)
+	if err != nil {
+		fmt.Fprintln(os.Stderr, "factgen_c05:", err)
+		os.Exit(1)
+	}
+	for _, d := range chainFile.Decls {
+		fd, ok := d.(*ast.FuncDecl)
+		if !ok {
+			continue
+		}
+		name := fd.Name.Name
+		if fd.Recv != nil && len(fd.Recv.List) == 1 {
+			name = str(fd.Recv.List[0].Type) + "." + name
+		}
+		fns[name] = fd
+	}
+	for _, n := range []string{"Chain.Then", "Recover", "DelayIfStillRunning", "DelayIfStillRunningWithClock", "SkipIfStillRunning"} {
+		if fns[n] == nil || fns[n].Body == nil {
+			fail(chainFile, "function %s not found in chain.go", n)
+		}
+	}
 	var f facts
+	f.chain(fns)
 	f.newFn(fns["New"])
 	f.run(fns["*Cron.run"])
 	f.stop(fns["*Cron.Stop"])
@@ -758,6 +989,10 @@ inductive SelCase where
 	} else {
 		b.WriteString("def src_waiterAdd : List (Nat × String) := []\n\ndef src_waiterDone : List (Nat × String) := []\n\ndef src_waiterWait : List (Nat × String) := []\n\n")
 	}
+	lst("src_Then", "Chain.Then")
+	lst("src_Recover", "Recover")
+	lst("src_DelayWithClock", "DelayIfStillRunningWithClock")
+	lst("src_Skip", "SkipIfStillRunning")
 	nat := func(name string, v int) { fmt.Fprintf(&b, "def %s : Nat := %d\n", name, v) }
 	boo := func(name string, v bool) { fmt.Fprintf(&b, "def %s : Bool := %s\n", name, b2(v)) }
 	b.WriteString("/-! channel capacities (`New`) -/\n")
@@ -809,6 +1044,15 @@ inductive SelCase where
 	boo("entriesAsksWhenRunning", f.entriesAsksWhenRunning)
 	boo("startSpawnsRun", f.startSpawnsRun)
 	boo("lessZeroLast", f.lessZeroLast)
+	b.WriteString("\n/-! chain.go: job wrappers -/\n")
+	boo("thenAppliesLastFirst", f.thenAppliesLastFirst)
+	nat("skipCap", f.skipCap)
+	nat("skipTokens", f.skipTokens)
+	boo("skipTokenDeferred", f.skipTokenDeferred)
+	boo("delayReadsClockBeforeLock", f.delayReadsClockBeforeLock)
+	boo("delayUnlockDeferred", f.delayUnlockDeferred)
+	boo("delayThresholdMinute", f.delayThresholdMinute)
+	boo("recoverLogsError", f.recoverLogsError)
 	b.WriteString("\n/-! hook sites -/\n")
 	hs := make([]string, len(f.hookSites))
 	for i, h := range f.hookSites {
